@@ -399,6 +399,12 @@ pub fn check(case: &Case, idx: u64, acc: &mut Acc) {
                 if let Err(e) = cmp_dual2(&sh2, &r2, &u, TOL, TOL, TOL) {
                     acc.violate("sum/Dual2/shared-storage", idx, cj(), json!(r2.val.v), json!(e));
                 }
+                let shn2: Number = xs.iter().map(|x| Number::Dual2(objs2[pick(x)].clone())).sum();
+                if let (Number::Dual2(d), false) = (&shn2, xs.is_empty()) {
+                    if let Err(e) = cmp_dual2(d, &r2, &u, TOL, TOL, TOL) {
+                        acc.violate("sum/Number2/shared-storage", idx, cj(), json!(r2.val.v), json!(e));
+                    }
+                }
                 let shn: Number = xs.iter().map(|x| Number::Dual(objs1[pick(x)].clone())).sum();
                 if let (Number::Dual(d), false) = (&shn, xs.is_empty()) {
                     if let Err(e) = cmp_dual(d, &r1, &u, TOL, TOL) {
